@@ -29,12 +29,12 @@ def sset(xs):
     return "{" + ", ".join('"%s"' % x for x in xs) + "}"
 
 
-def cfg_mc(mode, ops, props, ind, maxlen, maxn, export=False):
+def cfg_mc(mode, ops, props, ind, maxlen, maxn, export=False, inv=""):
     s = ("CONSTANTS\n  Ops = %s\n  LoadStacks <- McLoadStacks\n  MaxN = %d\n  Ind <- %s\n  MaxLen = %d\n"
          "  Mode = \"%s\"\nCHECK_DEADLOCK FALSE\n" % (sset(ops), maxn, ind, maxlen, mode))
     if export:
         return "SPECIFICATION ExportSpec\nACTION_CONSTRAINT PrintCase\n" + s
-    return "SPECIFICATION McSpec\nINVARIANT TypeOK Total\nPROPERTY %s\n" % props + s
+    return "SPECIFICATION McSpec\nINVARIANT TypeOK Total %s\nPROPERTY %s\n" % (inv, props) + s
 
 
 CFG_TRACE = ("SPECIFICATION TraceSpec\nCONSTANTS\n  Ops = {}\n  LoadStacks = {}\n  MaxN = 0\n"
